@@ -256,7 +256,7 @@ PREDICATES = {
 
 
 def _base_campaigns(tier):
-    strat = st.fixed_dictionaries({"prog": dag_programs(max_funcs=6, allow_none=True), "pick": st.integers(0, 2**16 - 1)})
+    strat = st.fixed_dictionaries({"prog": dag_programs(max_funcs=6, allow_none=True, allow_attr_picker=True), "pick": st.integers(0, 2**16 - 1)})
     return [Campaign("dag", body, strat, quick=6000, thorough=100000, describe="DAG programs x outputs x argument cuts")]
 
 
